@@ -158,10 +158,10 @@ theorem login_bytes_requeued {σ : Type} (fl : Flavour) (P : Pats) (cfg : Cfg)
   constructor
   · simp only [openChannel, login_eq_loop, hok, hlen, if_true]
   · intro hd
-    simp only [readUntil, List.nil_append, window_short _ _ hd, hp, if_true]
-where
-  window_short (rb : Bytes) (d : Nat) (h : rb.length ≤ d) : window rb d = rb := by
-    simp [window, h]
+    have hw : window (loop (scanOf fl P cfg) cfg react (fuelOf cfg) d ⟨0, 0, 0⟩ q []).buf cfg.depth =
+        (loop (scanOf fl P cfg) cfg react (fuelOf cfg) d ⟨0, 0, 0⟩ q []).buf := by
+      simp [window, hd]
+    simp only [readUntil, List.nil_append, hw, hp, if_true]
 
 /-! ## success iff the device admits us -/
 
